@@ -152,6 +152,18 @@ static int sample8(int f, int pl, int x, int y) {
         if (pl == 0 && ((g >> ((gy * 8 + gx) & 31)) & 1) && (by & 1)) return 255 - base;
         return base;
     }
+    /* every 16x16 luma block (8x8 chroma block) is per-sample noise over k exact colours, k = 2..8 for luma and 1..4 for chroma; colours come
+       from a pool rich in coding boundaries (0, 2^k - 1, 2^k, 255 - 2^k, 255) plus arbitrary values: drives the palette colour-cache / delta
+       coding of both planes through its range and bit-width corners */
+    if (!strcmp(content, "palette")) {
+        static const uint8_t pool[] = {0, 1, 2, 3, 5, 16, 31, 32, 63, 64, 100, 127, 128, 150, 191, 192, 200, 223, 224, 230, 239, 240, 247, 248, 250, 251, 252, 253, 254, 255};
+        int bx = sx / 16, by = sy / 16;
+        uint32_t c = mix(cseed, 11 + (uint32_t)pl, (uint32_t)(by + 64 * (f / 2)), (uint32_t)bx);
+        int k = pl == 0 ? 2 + (int)(c % 7) : 1 + (int)(c % 4);
+        uint32_t sel = mix(cseed, (uint32_t)f, (uint32_t)(pl * 70000 + y), (uint32_t)x) % (uint32_t)k;
+        uint32_t ci = mix(cseed, 13 + (uint32_t)pl, c, sel);
+        return (ci & 0x300) ? pool[ci % sizeof(pool)] : (int)((ci >> 12) & 255);
+    }
     /* grad / box / cut : moving gradient + low noise */
     int v;
     if (pl == 0) v = (sx * 2 + sy + 3 * cutf) & 255;
@@ -171,6 +183,7 @@ static int sampleN(int f, int pl, int x, int y) {
     if (!strcmp(content, "max")) return 1023;
     int lo = (int)(mix(cseed ^ 0x55u, (uint32_t)f, (uint32_t)(pl * 70000 + y), (uint32_t)x) & 3);
     if (!strcmp(content, "flat") || !strcmp(content, "min")) lo = 0;
+    if (!strcmp(content, "palette")) lo = 3; /* exact colours; 1023 - (4v + 3) = 4 (255 - v) keeps the power-of-two remainders */
     return (v << 2) | lo;
 }
 
